@@ -4,27 +4,34 @@
 //  here: every evaluation deref_lvalue starts runs either at the same depth on a literal or on the subscript of the lvalue
 //  (a strict sub-term), or exactly one level deeper and never deeper than MAX_VARIABLE_DEREF_DEPTH.
 //  (Composition into one global measure (MAX - depth, size) is an argument, not a single machine-checked decreases clause.)
-pub struct EvalCall { pub expr: ast::ArithmeticExpr, pub depth: u32 }
+pub struct EvalCall { pub expr: ast::ArithmeticExpr, pub depth: u32, pub ret: Result<i64, EvalError> }
 #[verifier::external_body]
 pub struct Shell { _p: u8 }
-impl Shell { pub uninterp spec fn evals(&self) -> Seq<EvalCall>; }   // ghost: evaluator entries so far
+impl Shell { pub uninterp spec fn evals(&self) -> Seq<EvalCall>;    // ghost: evaluator entries so far (with what each returned)
+             pub uninterp spec fn vars(&self) -> int; }               // ghost: the variable store (abstract; the stub evaluator leaves it alone)
 #[verifier::external_body]
 fn eval_expr_impl(expr: &ast::ArithmeticExpr, shell: &mut Shell, depth: u32) -> (r: Result<i64, EvalError>)
-    ensures final(shell).evals() == old(shell).evals().push(EvalCall { expr: *expr, depth: depth })
+    ensures final(shell).evals() == old(shell).evals().push(EvalCall { expr: *expr, depth: depth, ret: r }), final(shell).vars() == old(shell).vars()
 { unimplemented!() }
 impl ast::ArithmeticExpr {
     // Evaluatable::eval (arithmetic.rs): `eval_expr_impl(self, shell, 0)` — the text is checked at extraction time
     #[verifier::external_body]
     pub fn eval(&self, shell: &mut Shell) -> (r: Result<i64, EvalError>)
-        ensures final(shell).evals() == old(shell).evals().push(EvalCall { expr: *self, depth: 0 })
+        ensures final(shell).evals() == old(shell).evals().push(EvalCall { expr: *self, depth: 0, ret: r })
     { unimplemented!() }
 }
+pub uninterp spec fn var_text(vars: int, name: Seq<char>) -> Result<Seq<char>, EvalError>;          // the text a variable holds ("" when unset)
+pub uninterp spec fn parse_spec(text: Seq<char>) -> Result<ast::ArithmeticExpr, EvalError>;        // brush_parser::arithmetic::parse
 #[verifier::external_body]
-fn get_var_value(shell: &Shell, name: &str) -> (r: Result<String, EvalError>) { unimplemented!() }
+fn get_var_value(shell: &Shell, name: &str) -> (r: Result<String, EvalError>)
+    ensures match var_text(shell.vars(), name@) { Ok(t) => r is Ok && r->Ok_0@ == t, Err(e) => r == Err::<String, EvalError>(e) }
+{ unimplemented!() }
 #[verifier::external_body]
 fn env_get_at(shell: &Shell, name: &String, index: &str) -> (r: Result<String, EvalError>) { unimplemented!() }
 #[verifier::external_body]
-fn parse_arith(text: &String) -> (r: Result<ast::ArithmeticExpr, EvalError>) { unimplemented!() }
+fn parse_arith(text: &String) -> (r: Result<ast::ArithmeticExpr, EvalError>) ensures r == parse_spec(text@) { unimplemented!() }
+// std pieces a shortcut might be written with (no meaning attached: a result obtained through them is not the evaluator's)
+pub assume_specification [str::trim] (s: &str) -> (r: &str);
 pub trait VxOwned { spec fn vx_view(&self) -> Seq<char>; fn vx_owned(self) -> (r: String) ensures r@ == self.vx_view(); }
 impl VxOwned for String { open spec fn vx_view(&self) -> Seq<char> { self@ } #[verifier::external_body] fn vx_owned(self) -> (r: String) { self } }
 spec fn deref_call_ok(c: EvalCall, lvalue: ast::ArithmeticTarget, depth: u32) -> bool {
@@ -32,3 +39,5 @@ spec fn deref_call_ok(c: EvalCall, lvalue: ast::ArithmeticTarget, depth: u32) ->
     ||| (c.depth == depth && lvalue is ArrayElement && c.expr == *lvalue->ArrayElement_1)
     ||| (c.depth == depth + 1 && c.depth <= MAX_VARIABLE_DEREF_DEPTH)
 }
+#[verifier::external_body]
+fn vx_parse_i64(s: &str) -> (r: Result<i64, EvalError>) { unimplemented!() }       // R14: str::parse::<i64> (arbitrary result; error type irrelevant)
